@@ -306,6 +306,10 @@ for _k in ("C01", "C02"):
 CLAIMED["C02"]["note"] = CLAIMED["C02"]["note"].replace("that no failure other than ValidationError exists is checked by the correspondence run only.",
     "that no failure other than ValidationError leaves MessageSchema.load is theorem loadGen_eq about the translated validators inside a hand-written "
     "rendering of marshmallow's field pipeline (LC.schemaLoad), and is also exercised by the correspondence run.")
+CLAIMED["C18"]["text"] += (" The two pure mapping functions (_parse_message_to_mqtt, _parse_mqtt_to_message) are regenerated from the code on every run "
+                           "(tools/translate.py -> Generated/MqttBodies.lean over Model/LitMqtt.lean) and Lemmas/MqttBodiesEq.lean proves them equal to "
+                           "Mqtt.toTopic (ValueError exactly where it is none) and Mqtt.toLine, the functions the round-trip theorems are about.")
+CLAIMED["C18"]["technique"] += " + topic/line mapping translated from the Python AST with equality proofs (MqttBodiesEq)"
 CLAIMED["C17"]["technique"] += " + StreamTransport methods translated from the Python AST with equality proofs (StreamBodiesEq)"
 CLAIMED["C02"]["text"] += (" The malformed stream is also fed end to end through Gateway.listen (one long-lived and fresh generators, populated registries): "
                            "a rejected line must raise InvalidMessageError carrying no decoded message, change nothing and not swallow the next line.")
